@@ -226,6 +226,9 @@ static void apply(const struct op *o, struct mstate *m) {
                 for (int attempt = 0; attempt < 20000 && nc > 16; attempt++) { unsigned c[16]; for (int i = 1; i < 16; i++) c[i] = cand[prng(&ps) % (unsigned)nc]; if (c[2] & 1) continue; c[0] = 0; c[0] = ref_eval(c); int ok = 0; for (int i = 0; i < nc; i++) if (cand[i] == c[0]) ok = 1; if (!ok) continue; ref_phrase_from_idx(c, la, amb[w], 0); break; } }
             st = polyseed_decode(amb[w], 0, &lo, &d); want = ref_decode(amb[w], 0, -1, m->mask, 0, CAP, NULL, NULL);
             if (want != ST_MULT_LANG) BADV("c13:model-internal", "ambiguous phrase is not ambiguous for the model (%d)", want);
+            { polyseed_data *d2 = (polyseed_data *)(uintptr_t)0xBEEF; int st2 = polyseed_decode(amb[w], 0, NULL, &d2);      /* the language output is optional on every exit */
+              if (st2 != want) { snprintf(k, sizeof k, "c13:status:%s:null-lang-out", o->name); BADV(k, "%s with lang_out = NULL returned %d, model %d", o->name, st2, want); }
+              if (st2 == POLYSEED_OK) polyseed_free(d2); }
         } break;
         }
         if (st != want) { snprintf(k, sizeof k, "c13:status:%s", o->name); BADV(k, "%s returned %d, model %d", o->name, st, want); }
@@ -306,6 +309,26 @@ static void battery(struct mstate *m) {
                 int wa = ref_decode(ph, 3, -1, m->mask, 0, CAP, NULL, NULL);
                 if (st != wa || (wa != ST_MULT_LANG && st != (sup ? 0 : ST_UNSUPPORTED))) { snprintf(k, sizeof k, "c10:decode:f%u:m%u", f, m->mask); BADV(k, "decode of features %u under mask %u returned %d (model %d)", f, m->mask, st, wa); }
                 if (st == 0) polyseed_free(d);
+            }
+        }
+        /* "the most recent enabling call wins", back to back on the very same input: a call, an enabling call that flips the verdict,
+         * the identical call again (nothing remembered from the refusal or the acceptance), then the mask of this state again */
+        for (unsigned f = 1; f < 24; f++) {
+            if ((f & 8) || !(f & 7)) continue;      /* only seeds whose acceptance depends on the mask */
+            r.features = f; int sup = ref_supported(f, m->mask); unsigned flip = sup ? 0 : (f & 7);
+            uint8_t st_[32]; ref_storage(&r, st_); char ph[2048]; ref_phrase(&r, 0, 3, ph, 0); const polyseed_lang *lo;
+            for (int ep = 0; ep < 4; ep++) {
+                if (ep == 3 && (f & 16)) continue;
+                int got[2];
+                for (int pass = 0; pass < 2; pass++) {
+                    polyseed_data *d = NULL; int st = ep == 0 ? polyseed_load(st_, &d) : ep == 1 ? polyseed_decode_explicit(ph, 3, polyseed_get_lang(0), &d) : ep == 2 ? polyseed_decode(ph, 3, &lo, &d) : polyseed_create(f, &d); BAT_CALLS++;
+                    if (st == 0) polyseed_free(d);
+                    got[pass] = st;
+                    if (pass == 0) polyseed_enable_features(flip);
+                }
+                polyseed_enable_features(m->mask); BAT_CALLS += 2;
+                int w0 = sup ? 0 : ST_UNSUPPORTED, w1 = sup ? ST_UNSUPPORTED : 0;
+                if (got[0] != w0 || got[1] != w1) { static const char *EP[] = { "load", "decode_explicit", "decode", "create" }; snprintf(k, sizeof k, "c10:latest-enabling-call:%s", EP[ep]); BADV(k, "%s of features %u: status %d under mask %u, then enable_features(%u), the same call again: status %d (expected %d then %d)", EP[ep], f, got[0], m->mask, flip, got[1], w0, w1); }
             }
         }
         static const unsigned CF[] = { 0, 1, 2, 3, 4, 5, 6, 7, 8, 9, 16, 23, 31, 0xFFFFFFF8u, 0xFFFFFFF9u, 0xFFFFFFFFu };
